@@ -83,6 +83,11 @@ def run_case(case) -> Result:
             if out.kind != "ok":
                 res.violate(f"unexpected-RuntimeError:{s['op']}", error=str(out.exc))
                 return res
+        # which nodes already carry an empty attractor result before any query (clean marks set by block/scc)
+        pre_empty = {
+            i: (h.sd.node_data(i)["attractor_candidates"] == [] or h.sd.node_data(i)["attractor_seeds"] == [])
+            for i in h.sd.node_ids()
+        }
         if case.get("fallback"):
             from ..bb import call
 
@@ -130,17 +135,21 @@ def run_case(case) -> Result:
         if k == 0:
             containing = [i for i in skip_ids if net.attr_in_space(a, spaces[i])]
 
-            def empty_result(n):
-                d = sd.node_data(n)
-                return d["attractor_candidates"] == [] or d["attractor_seeds"] == []
+            qpos = {i: k for k, i in enumerate(seeds.keys())}  # query order
+
+            def empty_when_queried(n, x):
+                """did node n already have an EMPTY result when skip node x was queried?"""
+                if pre_empty.get(n):
+                    return True
+                return n in qpos and qpos[n] < qpos[x] and seeds[n] == []
 
             # is every skip node that contains the attractor pruned, by the documented rule, through its
-            # intersection with a non-ancestor node whose own result is empty?
+            # intersection with a non-ancestor node whose own result was (really) empty at that moment?
             by_rule = bool(containing) and all(
                 any(
                     n != x
                     and not net.sub(spaces[x], spaces[n])
-                    and empty_result(n)
+                    and empty_when_queried(n, x)
                     and net.inter(spaces[x], spaces[n]) is not None
                     and net.attr_in_space(a, net.inter(spaces[x], spaces[n]))
                     for n in sd.node_ids()
